@@ -104,7 +104,7 @@ def profile_flags(p):
     fl = ["-DVH_N=%d" % p.get("N", 3), "-DVH_L=%d" % p.get("L", 2), "-DVH_CAP=%d" % p.get("cap", 0),
           "-DVH_HEAD=%d" % p.get("head", 1), "-DVH_MANUAL=%d" % p.get("manual", 0), "-DVH_PAY=%d" % p.get("pay", 0),
           "-DVH_CTX=%d" % p.get("ctx", 0), "-DVH_DEFMODE=%d" % p.get("defmode", 0), "-DVH_DEV=%d" % p.get("dev", 0),
-          "-DVH_CFGORDER=%d" % p.get("cfgorder", 0), "-DVH_VIRT=%d" % p.get("virt", 0)]
+          "-DVH_CFGORDER=%d" % p.get("cfgorder", 0), "-DVH_VIRT=%d" % p.get("virt", 0), "-DVH_CONSTCB=%d" % p.get("constcb", 0)]
     inj = p.get("inj", (0, 0, 0, 0))
     fl += ["-DVH_INJ_ROOT=%d" % inj[0], "-DVH_INJ_S0=%d" % inj[1], "-DVH_INJ_S1=%d" % inj[2], "-DVH_INJ_LAST=%d" % inj[3]]
     fl += [FEATURE_FLAGS[c] for c in p.get("feat", "PSHG")]
